@@ -199,3 +199,105 @@ func TestC02(t *testing.T) {
 		cl.done(nonEmpty >= 2 && bins >= 2)
 	})
 }
+
+// TestC02_StructuredParts: the parts are sketches over buffered-paginated stores (now and then another kind) in the
+// structured states of TestC04_PaginatedScenarios (pages made by weighted values at positions moving away step by step,
+// clusters of unit values on one page around the compaction thresholds, scattered unit values); they are merged in a
+// chain, by MergeWith or through their encoding, and the result is compared with one sketch fed everything and with
+// the exact model.
+func TestC02_StructuredParts(t *testing.T) {
+	rapid.Check(t, func(t *rapid.T) {
+		cl := newCase("C02")
+		cl.label("structured-parts")
+		spec, m := buildMapping(t, 1e-3, 0.03)
+		dom := newDomain(m)
+		base := m.Index(1)
+		if dom.minIdx > base-32*40 || dom.maxIdx < base+32*40 {
+			t.Skip("index range too narrow")
+		}
+		k := rapid.IntRange(2, 4).Draw(t, "parts")
+		bud := model.NewBudget(gen.Quantum)
+		twinCfg := skCfg{spec: spec, m: m, pos: gen.NonCollapsingKind().Draw(t, "twinpos"), neg: gen.NonCollapsingKind().Draw(t, "twinneg")}
+		twin := twinCfg.new()
+		whole := newSkModel(m)
+		parts := make([]obs.SK, k)
+		models := make([]*skModel, k)
+		cfgs := make([]skCfg, k)
+		cl.logf("C02 structured parts %s k=%d", spec, k)
+		for i := range parts {
+			kind := gen.StoreKind{Name: "paginated"}
+			if rapid.IntRange(0, 5).Draw(t, "otherkind") == 0 {
+				kind = gen.NonCollapsingKind().Draw(t, "kind")
+			}
+			cfgs[i] = skCfg{spec: spec, m: m, pos: kind, neg: kind}
+			parts[i] = cfgs[i].new()
+			models[i] = newSkModel(m)
+			neg := rapid.IntRange(0, 3).Draw(t, "negside") == 0
+			for _, op := range pagScenario(t, base) {
+				cl.logf("part %d (neg=%v): %s", i, neg, op)
+				feed := func(idx int, w float64) {
+					v := dom.clamp(m.Value(idx))
+					if neg {
+						v = -v
+					}
+					var e1, e2 error
+					if w == 1 {
+						e1, e2 = parts[i].Add(v), twin.Add(v)
+					} else {
+						e1, e2 = parts[i].AddWithCount(v, w), twin.AddWithCount(v, w)
+					}
+					if e1 != nil || e2 != nil {
+						t.Fatalf("C02 structured: add refused: %v %v", e1, e2)
+					}
+					models[i].add(v, w)
+					whole.add(v, w)
+				}
+				switch op.Kind {
+				case "addw":
+					feed(op.Index, op.W)
+				case "burst":
+					for _, idx := range op.Burst {
+						feed(idx, 1)
+					}
+				}
+			}
+		}
+		if !bud.Fits(whole.total()) {
+			t.Skip("budget")
+		}
+		helper := &skUT{bud: bud}
+		for i := 1; i < k; i++ {
+			before := helper.fullObs(parts[i], models[i], cfgs[i])
+			var err error
+			if rapid.IntRange(0, 3).Draw(t, "viaDecode") == 0 {
+				var b []byte
+				parts[i].Encode(&b, rapid.Bool().Draw(t, "omit"))
+				err = parts[0].DecodeAndMergeWith(b)
+				cl.label("decode-merge-edge")
+			} else {
+				err = parts[0].MergeWith(parts[i])
+			}
+			if err != nil {
+				t.Fatalf("C02 structured: merge failed: %v", err)
+			}
+			if dd := obs.DiffSketch(helper.fullObs(parts[i], models[i], cfgs[i]), before, obs.DiffOpts{IgnoreSum: cfgs[i].anySparse()}); dd != "" {
+				t.Fatalf("C02 structured: merging changed its argument (part %d): %s", i, dd)
+			}
+			models[0].merge(models[i], cfgs[i])
+			if rapid.Bool().Draw(t, "lookbetween") {
+				if msg := checkAgainstModel(parts[0], cfgs[0], models[0], bud); msg != "" {
+					t.Fatalf("C02 structured: after merging part %d: %s", i, msg)
+				}
+			}
+		}
+		if msg := checkAgainstModel(parts[0], cfgs[0], whole, bud); msg != "" {
+			t.Fatalf("C02 structured: merged sketch (%s) differs from the model of the whole input: %s", cfgs[0], msg)
+		}
+		og, ow := helper.fullObs(parts[0], whole, cfgs[0]), helper.fullObs(twin, whole, twinCfg)
+		if dd := obs.DiffSketch(og, ow, obs.DiffOpts{IgnoreSum: true}); dd != "" {
+			t.Fatalf("C02 structured: merged sketch differs from a single sketch (%s) fed the whole input: %s", twinCfg, dd)
+		}
+		cl.label("same-kind-fast-path")
+		cl.done(whole.total() > 0)
+	})
+}
